@@ -51,6 +51,7 @@ def dstep (s : DSt) (toks : List String) : DSt × String :=
   | "uu" :: r => (s, EventsSpec.checkUU r)
   | "vd" :: r => (s, EventsSpec.checkVD r)
   | "vc" :: _ => (s, "begun")   -- concurrent Listener creation: the round follows as `vn` lines
+  | "vx" :: _ => (s, "begun")   -- concurrent deregistrations of one listener: the round follows as `vn` lines
   | _ => (s, "bad-op")
 
 def main : IO Unit := Hive.Proto.run dinit dstep
